@@ -23,6 +23,15 @@ import (
 
 	btcConfig "github.com/ChainSafe/sygma-relayer/chains/btc/config"
 	btcListener "github.com/ChainSafe/sygma-relayer/chains/btc/listener"
+	evmEvents "github.com/ChainSafe/sygma-relayer/chains/evm/calls/events"
+	evmHandlers "github.com/ChainSafe/sygma-relayer/chains/evm/listener/eventHandlers"
+	subHandlers "github.com/ChainSafe/sygma-relayer/chains/substrate/listener"
+	relayerStore "github.com/ChainSafe/sygma-relayer/store"
+	"github.com/centrifuge/go-substrate-rpc-client/v4/registry/parser"
+	"github.com/ethereum/go-ethereum/common"
+	ethTypes "github.com/ethereum/go-ethereum/core/types"
+	"github.com/rs/zerolog"
+	"github.com/sygmaprotocol/sygma-core/relayer/message"
 	"github.com/ChainSafe/sygma-relayer/config/chain"
 	"github.com/btcsuite/btcd/btcjson"
 	"github.com/btcsuite/btcd/chaincfg/chainhash"
@@ -111,12 +120,17 @@ type scanEnv struct {
 	once    sync.Once
 	cancel  context.CancelFunc
 	bs      *store.BlockStore
+	real    bool // the REAL event handlers (and events.Listener) sit between the listener and the node fake; a
+	// "handler call" is then what the NODE sees: the range/block of the handler's first read in the round
+	fetches int  // reads seen by the Substrate node fake in the current round (real mode: handler index)
 	confPtr *big.Int // optional: the confirmations big.Int shared with other components (C04 seq)
 	onCall  func(idx int, s, e *big.Int) // optional extra observer (C19)
 }
 
 func newScanEnv(kind string, conf, k int64, nh int, rounds []roundSpec, kv store.KeyValueReaderWriter) *scanEnv {
-	return &scanEnv{kind: kind, conf: conf, k: k, nh: nh, rounds: rounds, pos: -1, done: make(chan struct{}),
+	real := strings.HasSuffix(kind, "+")
+	kind = strings.TrimSuffix(kind, "+")
+	return &scanEnv{real: real, kind: kind, conf: conf, k: k, nh: nh, rounds: rounds, pos: -1, done: make(chan struct{}),
 		bs: store.NewBlockStore(kv)}
 }
 
@@ -163,8 +177,9 @@ func (e *scanEnv) nextRound() string {
 		e.die()
 	}
 	e.actions = 0
+	e.fetches = 0
 	h := e.rounds[e.pos].head
-	o := roundObs{head: h, store: "-"}
+	o := roundObs{head: strings.SplitN(h, "~", 2)[0], store: "-"}
 	if h == "F" {
 		o.head = "E"
 	}
@@ -229,7 +244,19 @@ func (e *scanEnv) StoreBlock(block *big.Int, domainID uint8) error {
 func (e *scanEnv) headOf() int64 {
 	e.mu.Lock()
 	defer e.mu.Unlock()
-	return i64(e.rounds[e.pos].head)
+	return i64(strings.SplitN(e.rounds[e.pos].head, "~", 2)[0])
+}
+
+// confsOf: the `confirmations` field the node reports for the best block it hands out: head spec `<height>~<c>`
+// (c > 1: the tip moved on between GetBestBlockHash and GetBlockVerboseTx); default 1.
+func (e *scanEnv) confsOf() int64 {
+	e.mu.Lock()
+	defer e.mu.Unlock()
+	f := strings.SplitN(e.rounds[e.pos].head, "~", 2)
+	if len(f) == 2 {
+		return i64(f[1])
+	}
+	return 1
 }
 func (e *scanEnv) curSpec() string {
 	e.mu.Lock()
@@ -250,7 +277,7 @@ func (c btcScanConn) GetBlockVerboseTx(*chainhash.Hash) (*btcjson.GetBlockVerbos
 	if c.e.curSpec() == "F" {
 		return nil, errors.New("rpc down")
 	}
-	return &btcjson.GetBlockVerboseTxResult{Height: c.e.headOf()}, nil
+	return &btcjson.GetBlockVerboseTxResult{Height: c.e.headOf(), Confirmations: c.e.confsOf()}, nil
 }
 func (c btcScanConn) GetRawTransactionVerbose(*chainhash.Hash) (*btcjson.TxRawResult, error) {
 	return nil, errors.New("unused")
@@ -268,7 +295,7 @@ func (h btcScanHandler) HandleEvents(b *big.Int) error { return h.e.handle(h.idx
 type evmScanClient struct{ e *scanEnv }
 
 func (c evmScanClient) LatestBlock() (*big.Int, error) {
-	h := c.e.nextRound()
+	h := strings.SplitN(c.e.nextRound(), "~", 2)[0]
 	if h == "E" || h == "F" {
 		return nil, errors.New("rpc down")
 	}
@@ -302,6 +329,78 @@ func (c subScanConn) GetBlock(types.Hash) (*types.SignedBlock, error) {
 	return &types.SignedBlock{Block: types.Block{Header: types.Header{Number: types.BlockNumber(c.e.headOf())}}}, nil
 }
 
+// ---- node fakes underneath the REAL handlers (real mode)
+type realEvmNode struct{ e *scanEnv }
+
+func (n realEvmNode) FetchEventLogs(ctx context.Context, a common.Address, event string, s, end *big.Int) ([]ethTypes.Log, error) {
+	idx := 1
+	if event == string(evmEvents.DepositSig) {
+		idx = 0
+	}
+	if err := n.e.handle(idx, s, end); err != nil {
+		return nil, err
+	}
+	return nil, nil
+}
+func (n realEvmNode) WaitAndReturnTxReceipt(common.Hash) (*ethTypes.Receipt, error) { return nil, errors.New("unused") }
+func (n realEvmNode) LatestBlock() (*big.Int, error)                               { return nil, errors.New("unused") }
+func (n realEvmNode) BlockByNumber(context.Context, *big.Int) (*ethTypes.Block, error) {
+	return nil, errors.New("unused")
+}
+
+type realBtcNode struct{ e *scanEnv }
+
+func (n realBtcNode) GetRawTransactionVerbose(*chainhash.Hash) (*btcjson.TxRawResult, error) {
+	return nil, errors.New("unused")
+}
+func (n realBtcNode) GetBlockHash(h int64) (*chainhash.Hash, error) {
+	if err := n.e.handle(0, big.NewInt(h), big.NewInt(h)); err != nil {
+		return nil, err
+	}
+	return &chainhash.Hash{}, nil
+}
+func (n realBtcNode) GetBlockVerboseTx(*chainhash.Hash) (*btcjson.GetBlockVerboseTxResult, error) {
+	return &btcjson.GetBlockVerboseTxResult{}, nil
+}
+func (n realBtcNode) GetBestBlockHash() (*chainhash.Hash, error) { return &chainhash.Hash{}, nil }
+
+type realSubNode struct{ e *scanEnv }
+
+func (n realSubNode) GetFinalizedHead() (types.Hash, error) { return types.Hash{}, nil }
+func (n realSubNode) GetBlock(types.Hash) (*types.SignedBlock, error) {
+	return &types.SignedBlock{Block: types.Block{Header: types.Header{Number: 1 << 30}}}, nil
+}
+func (n realSubNode) GetBlockLatest() (*types.SignedBlock, error) { return n.GetBlock(types.Hash{}) }
+func (n realSubNode) GetBlockHash(uint64) (types.Hash, error)     { return types.Hash{}, nil }
+func (n realSubNode) GetBlockEvents(types.Hash) ([]*parser.Event, error) { return nil, nil }
+func (n realSubNode) UpdateMetatdata() error                              { return nil }
+func (n realSubNode) FetchEvents(s, end *big.Int) ([]*parser.Event, error) {
+	n.e.mu.Lock()
+	idx := n.e.fetches
+	n.e.fetches++
+	n.e.mu.Unlock()
+	if err := n.e.handle(idx, s, end); err != nil {
+		return nil, err
+	}
+	return nil, nil
+}
+
+type noPropStore struct{}
+
+func (noPropStore) StorePropStatus(s, d uint8, n uint64, st relayerStore.PropStatus) error { return nil }
+func (noPropStore) PropStatus(s, d uint8, n uint64) (relayerStore.PropStatus, error) {
+	return relayerStore.MissingProp, nil
+}
+
+// realStackSize: number of handlers app.Run registers that read the node once per range (in this order):
+// evm: DepositEventHandler, RetryV1EventHandler; substrate: RetryEventHandler, FungibleTransferEventHandler; btc: deposits
+func realStackSize(kind string) int {
+	if kind == "btc" {
+		return 1
+	}
+	return 2
+}
+
 // scanListener is what the chain objects need.
 type scanListener interface {
 	ListenToEvents(ctx context.Context, startBlock *big.Int)
@@ -316,6 +415,30 @@ func (e *scanEnv) confBig() *big.Int {
 
 // build constructs the real listener of e.kind wired to the environment.
 func (e *scanEnv) build() scanListener {
+	if e.real {
+		ch := make(chan []*message.Message, 64)
+		switch e.kind {
+		case "btc":
+			id := scanDomain
+			cfg := &btcConfig.BtcConfig{GeneralChainConfig: chain.GeneralChainConfig{Id: &id},
+				BlockRetryInterval: 0, BlockConfirmations: e.confBig()}
+			h := btcListener.NewFungibleTransferEventHandler(zerolog.Context{}, scanDomain, &btcListener.BtcDepositHandler{}, ch, realBtcNode{e}, nil, nil)
+			return btcListener.NewBtcListener(btcScanConn{e}, []btcListener.EventHandler{h}, cfg, e)
+		case "evm":
+			el := evmEvents.NewListener(realEvmNode{e}) // the real events.Listener between the handlers and the node
+			hs := []evmListener.EventHandler{
+				evmHandlers.NewDepositEventHandler(el, nil, common.Address{}, scanDomain, ch),
+				evmHandlers.NewRetryV1EventHandler(zerolog.Context{}, el, nil, noPropStore{}, common.Address{}, scanDomain, e.confBig(), ch),
+			}
+			return evmListener.NewEVMListener(evmScanClient{e}, hs[:e.nh], e, noMetrics{}, scanDomain, 0, e.confBig(), big.NewInt(e.k))
+		case "sub":
+			hs := []subListener.EventHandler{
+				subHandlers.NewRetryEventHandler(zerolog.Context{}, realSubNode{e}, nil, scanDomain, ch),
+				subHandlers.NewFungibleTransferEventHandler(zerolog.Context{}, scanDomain, nil, ch, realSubNode{e}),
+			}
+			return subListener.NewSubstrateListener(subScanConn{e}, hs[:e.nh], e, noMetrics{}, scanDomain, 0, big.NewInt(e.k))
+		}
+	}
 	switch e.kind {
 	case "btc":
 		id := scanDomain
